@@ -411,9 +411,12 @@ func evalTransform(cc consCase) *Failure {
 		return &Failure{Class: "construct/" + cc.Fn + "/" + cl, What: fmt.Sprintf("%s on %s %s (n=%d) args %v: %s", cc.Fn, cc.Rep, g6(n, mask), n, cc.V, what), Kind: "transform", Replay: cc}
 	}
 	var base graph.EditableGraph
-	if cc.Rep == "sparse" {
+	switch cc.Rep {
+	case "sparse":
 		base = sparseFromMG(src)
-	} else {
+	case "dense-bytes": // non-unit edge indicator bytes
+		base = graphInRep("dense-bytes", n, mask).(*graph.DenseGraph)
+	default:
 		base = denseFromMG(src)
 	}
 	var out graph.Graph
@@ -421,6 +424,29 @@ func evalTransform(cc consCase) *Failure {
 	exact := true
 	msg, p := try(func() {
 		switch cc.Fn {
+		case "ContractThenSplit", "SplitThenContract":
+			// two transformations in a row on the same value: V = [i, j, k, l]
+			want = src.clone()
+			contract := func(a, b int) {
+				graph.Contract(base, a, b)
+				for _, v := range want.nbrs(b) {
+					want.set(a, v, true)
+				}
+				want.removeVertex(b)
+			}
+			split := func(a, b int) {
+				graph.SplitEdge(base, a, b)
+				want.set(a, b, false)
+				want.addVertex([]int{a, b})
+			}
+			if cc.Fn == "ContractThenSplit" {
+				contract(cc.V[0], cc.V[1])
+				split(cc.V[2], cc.V[3])
+			} else {
+				split(cc.V[0], cc.V[1])
+				contract(cc.V[2], cc.V[3])
+			}
+			out = base
 		case "ComplementDense":
 			out = graph.ComplementDense(base)
 			want = defFromEdges(n, func(add func(i, j int)) {
@@ -501,7 +527,7 @@ func evalTransform(cc consCase) *Failure {
 			return mk("not-isomorphic-to-definition", fmt.Sprint(got))
 		}
 	}
-	if src2 := mgFromGraph(base); cc.Fn != "SplitEdge" && cc.Fn != "Contract" && !src2.equal(src) {
+	if src2 := mgFromGraph(base); cc.Fn != "SplitEdge" && cc.Fn != "Contract" && cc.Fn != "ContractThenSplit" && cc.Fn != "SplitThenContract" && !src2.equal(src) {
 		return mk("source-modified", "")
 	}
 	return nil
@@ -877,7 +903,33 @@ func runC06(c *Ctx) {
 		}
 		rec()
 		for m := uint64(0); m < 1<<uint(edgeCount(n)); m++ {
-			for _, rep := range []string{"dense", "sparse"} {
+			if n <= 4 {
+				// chains of two transformations on the same value (every argument combination)
+				for _, rep := range []string{"dense", "sparse"} {
+					for i := 0; i < n; i++ {
+						for j := 0; j < n; j++ {
+							if i == j {
+								continue
+							}
+							for k := 0; k < n-1; k++ {
+								for l := 0; l < n-1; l++ {
+									if k != l {
+										tcases = append(tcases, consCase{Fn: "ContractThenSplit", N: n, Mask: m, Rep: rep, V: []int{i, j, k, l}})
+									}
+								}
+							}
+							for k := 0; k < n+1; k++ {
+								for l := 0; l < n+1; l++ {
+									if k != l {
+										tcases = append(tcases, consCase{Fn: "SplitThenContract", N: n, Mask: m, Rep: rep, V: []int{i, j, k, l}})
+									}
+								}
+							}
+						}
+					}
+				}
+			}
+			for _, rep := range []string{"dense", "sparse", "dense-bytes"} {
 				for _, fn := range []string{"ComplementDense", "Complement", "LineGraphDense"} {
 					tcases = append(tcases, consCase{Fn: fn, N: n, Mask: m, Rep: rep})
 				}
